@@ -162,7 +162,11 @@ def parseArgs (t : PType) (args : Json) : Except String Args := do
       pure (some (some (← optInt a[0]!, ← optInt a[1]!)))
     | none => pure none
   let itemType ← match arg args "item_type" with
-    | some .null => pure none
+    | some .null => pure (some none)
+    | some d => (fun ks => some (some ks)) <$> nats d
+    | none => pure none
+  let isList := t == .list || t == .hookList
+  let classAlias ← match (if isList then arg args "class_" else none) with
     | some d => some <$> nats d
     | none => pure none
   let isInstance ← match arg args "is_instance" with
@@ -174,14 +178,14 @@ def parseArgs (t : PType) (args : Json) : Except String Args := do
   let checkOnSet ← match arg args "check_on_set" with
     | some b => some <$> b.getBool?
     | none => pure none
-  let classes ← match arg args "class_" with
+  let classes ← match (if isList then none else arg args "class_") with
     | some d => nats d
     | none => pure []
   let allowNamed ← match arg args "allow_named" with
     | some b => some <$> b.getBool?
     | none => pure none
   return { ptype := t, default, allowNone, bounds, incl, softbounds, step, length, hook, constant, readonly,
-           regex := (arg args "regex").isSome, lenBounds, itemType, isInstance, objects,
+           regex := (arg args "regex").isSome, lenBounds, itemType, classAlias, isInstance, objects,
            checkOnSet, classes, allowNamed }
 
 def errName : ErrKind → String
@@ -214,7 +218,9 @@ def jSlots (c : Cfg) : Json :=
          | none => Json.null
          | some (lo, hi) => Json.arr #[Json.bool lo.isSome, Json.bool hi.isSome]) else Json.null),
     ("check_on_set", if isSel then Json.bool c.checkOnSet else Json.null),
-    ("constant", Json.bool c.constant), ("readonly", Json.bool c.readonly)]
+    ("constant", Json.bool c.constant), ("readonly", Json.bool c.readonly),
+    ("item_type", if c.ptype == .list || c.ptype == .hookList then
+        (match c.itemType with | some ks => toJson ks | none => Json.null) else Json.null)]
 
 def optStr (j : Json) : Option String :=
   match j with
